@@ -19,7 +19,7 @@ EXPLANATION = (
     'memo) or construct the class, never return self; (d) no private state '
     'that the class mutates in place, and no lazily filled cache, is aliased '
     'into the clone.  Independence under arbitrary later mutation is not decided.')
-FLOORS = {'C07.a': 4, 'C07.b': 2, 'C07.c': 2, 'C07.d': 3}
+FLOORS = {'C07.a': 4, 'C07.b': 2, 'C07.c': 2, 'C07.d': 3, 'C07.e': 1}
 FILES = ['pyglove/core/symbolic/base.py', 'pyglove/core/symbolic/dict.py',
          'pyglove/core/symbolic/list.py', 'pyglove/core/symbolic/object.py',
          'pyglove/core/symbolic/ref.py', 'pyglove/core/symbolic/functor.py',
@@ -173,6 +173,69 @@ def _memo_attrs(idx, cls):
   return out
 
 
+SETATTR_FORMS = ('_set_raw_attr', 'setattr', 'object.__setattr__', '__setattr__')
+
+
+def _private_copies(fn):
+  """(stmt, attr, value_expr, is_alias) for every private attribute a
+  _sym_clone override installs on the new object: `other._x = v`, and the
+  string forms `other._set_raw_attr('_x', v)` / `setattr(other, '_x', v)`,
+  also inside a loop over a literal tuple of attribute names with
+  `getattr(self, name)` as the value."""
+  out = []
+  def is_self_attr(v, attr):
+    if A.dotted(v) == f'self.{attr}':
+      return True
+    return (isinstance(v, ast.Call) and A.call_name(v) == 'getattr' and len(v.args) >= 2
+            and A.unparse(v.args[0]) == 'self' and A.const_str(v.args[1]) == attr)
+  for s in ast.walk(fn):
+    if isinstance(s, ast.Assign):
+      for t in s.targets:
+        d = A.dotted(t)
+        if not d or d.count('.') != 1 or d.startswith('self.'):
+          continue
+        attr = d.split('.')[1]
+        if attr.startswith('_'):
+          out.append((s, attr, s.value, is_self_attr(s.value, attr)))
+  # string forms, with loop expansion
+  def names_of(expr, env):
+    cs = A.const_str(expr)
+    if cs is not None:
+      return [cs]
+    if isinstance(expr, ast.Name) and expr.id in env:
+      return env[expr.id]
+    return []
+  def visit(node, env):
+    if isinstance(node, ast.For) and isinstance(node.target, ast.Name) and isinstance(node.iter, (ast.Tuple, ast.List)) \
+        and all(A.const_str(e) is not None for e in node.iter.elts):
+      env = dict(env)
+      env[node.target.id] = [A.const_str(e) for e in node.iter.elts]
+    if isinstance(node, ast.Call):
+      d = A.call_name(node) or ''
+      last = d.split('.')[-1]
+      if last in SETATTR_FORMS:
+        args = list(node.args)
+        if last == '_set_raw_attr' or (last == '__setattr__' and not d.startswith('object.')):
+          recv = d.rsplit('.', 1)[0]
+          name_e, val_e = (args + [None, None])[:2]
+        else:
+          recv = A.unparse(args[0]) if args else ''
+          name_e, val_e = (args[1:] + [None, None])[:2]
+        if recv and recv != 'self' and name_e is not None and val_e is not None:
+          for attr in names_of(name_e, env):
+            if not attr.startswith('_'):
+              continue
+            # value: getattr(self, <same name expr>) or self.<attr>
+            alias = is_self_attr(val_e, attr) or (
+                isinstance(val_e, ast.Call) and A.call_name(val_e) == 'getattr' and len(val_e.args) >= 2
+                and A.unparse(val_e.args[0]) == 'self' and A.unparse(val_e.args[1]) == A.unparse(name_e))
+            out.append((node, attr, val_e, alias))
+    for ch in ast.iter_child_nodes(node):
+      visit(ch, env)
+  visit(fn, {})
+  return out
+
+
 def rule_d(ctx, overrides):
   idx = ctx.index
   for c, m in overrides:
@@ -195,19 +258,8 @@ def rule_d(ctx, overrides):
                 if d and d.startswith('self._') and d.count('.') == 1:
                   mutated.add(d.split('.')[1])
     n = 0
-    for s in ast.walk(m.node):
-      if not isinstance(s, ast.Assign):
-        continue
-      for t in s.targets:
-        d = A.dotted(t)
-        if not d or d.count('.') != 1 or d.startswith('self.'):
-          continue
-        recv, attr = d.split('.')
-        if not attr.startswith('_'):
-          continue
+    for s, attr, v, alias in _private_copies(m.node):
         n += 1
-        v = s.value
-        alias = A.dotted(v) == f'self.{attr}'
         construct = f'{m.fq}#{attr}'
         if attr in memos:
           ctx.ob('C07.d', construct, False,
@@ -226,6 +278,22 @@ def rule_d(ctx, overrides):
       ctx.info('C07.d', m.fq, 'no private state copied by this override', m.loc)
 
 
+def rule_e(ctx):
+  """Independence at insertion time: a node taken from one copy and stored into
+  the other is copied, because the inserting container recognises "already
+  mine" by identity, never by equality (original and fresh clone are equal)."""
+  from sa.rules import c01
+  idx = ctx.index
+  f = idx.func(S.SYMBOLIC + '._relocate_if_symbolic')
+  problems = c01.relocate_identity_problems(f)
+  clones = [n for n in ast.walk(f.node) if isinstance(n, ast.Assign) and A.has_call(n.value, lambda d: d.endswith('.clone'))]
+  if not clones:
+    problems.append('a value that already has a parent is no longer copied on insertion')
+  ctx.ob('C07.e', f.fq, not problems,
+         'a value that belongs to another container (even an equal one) is copied when stored, so original '
+         'and clone never share a node', f.loc, '; '.join(problems))
+
+
 def run(ctx):
   ctx.consult(*FILES)
   idx = ctx.index
@@ -236,6 +304,7 @@ def run(ctx):
   rule_b(ctx)
   rule_c(ctx, overrides)
   rule_d(ctx, overrides)
+  rule_e(ctx)
   ctx.note(f'{len(overrides)} _sym_clone overrides analysed: ' + ', '.join(c.name for c, _ in overrides))
   ctx.note('dropping the per-child clone in _sym_clone would NOT break behaviour '
            '(_relocate_if_symbolic re-clones a parented value), so it is deliberately not a rule')
